@@ -6,9 +6,9 @@ fuzz_target("fz_c11_xml", ["fuzz/fz_c11_xml.cc"] + [f"{REPO}/tools/src/libtools/
                                                      ("property", "propertyiomanipulator", "tokenizer", "colors")])
 
 PROPS["C11"] = dict(
-    parts=[rc("h_c11", quick=dict(cases=24000, procs=8, budget_s=600),
+    parts=[rc("h_c11", quick=dict(cases=60000, procs=8, budget_s=600),
               thorough=dict(cases=1200000, procs=16, budget_s=1500)),
-           fz("fz_c11_xml", quick=dict(runs=600000, procs=2, max_len=160, budget_s=300),
+           fz("fz_c11_xml", quick=dict(runs=1200000, procs=2, max_len=160, budget_s=300),
               thorough=dict(runs=12000000, procs=8, max_len=256, budget_s=900), dict="corpus/fz_c11_xml/xml.dict")],
     rule=("options: every calculator description found at run time in /repo/xtp/share/xtp/xml (links into subpackages/ resolved by the harness' own "
           "reader) and in tools/src/tests/DataFiles/optionshandler; user tree = random subset (inclusion 0/5/15/40/80 %) of the declared nodes plus "
